@@ -29,9 +29,9 @@ META = {
                     "a send refused with FIXConnectionError is a legal outcome for a sender (it must consume nothing)"],
 }
 REQUIRED_ORACLES = ["wire-order", "journal-row", "stored-counter", "no-duplicate-error", "all-tasks-finish", "gapfill-coverage"]
-REQUIRED_COUNTERS = ["schedules_with_socket_death", "schedules_by_scenario:S2", "schedules_by_scenario:S8"]
+REQUIRED_COUNTERS = ["schedules_with_socket_death", "schedules_by_scenario:S2", "schedules_by_scenario:S8", "schedules_by_scenario:S9", "schedules_by_scenario:S9b"]
 NSHARDS = 16
-SCEN = ["S1", "S1b", "S2", "S2b", "S2c", "S3", "S3b", "S4", "S5", "S6", "S7", "S8", "S8b"]
+SCEN = ["S1", "S1b", "S2", "S2b", "S2c", "S3", "S3b", "S4", "S5", "S6", "S7", "S8", "S8b", "S9", "S9b"]
 DEPTH = {"quick": 7, "thorough": 11}
 MAXRUNS = {"quick": 700, "thorough": 30000}
 NRAND = {"quick": 25, "thorough": 1500}
@@ -43,7 +43,7 @@ def plan(tier, seed):
 
 def scenario_def(name):
     """role, setup sends, explored tasks (lists of actions), inbound frames (builders), ticks"""
-    d = {"role": "acceptor", "setup": 0, "tasks": [], "inbound": [], "ticks": 0, "hb": False, "logon": True, "death": False}
+    d = {"role": "acceptor", "setup": 0, "tasks": [], "inbound": [], "ticks": 0, "hb": False, "logon": True, "death": False, "resume": False}
     if name == "S1":
         d.update(tasks=[["app:a1", "app:a2"], ["app:b1"], ["test_req"]])
     elif name == "S1b":
@@ -69,6 +69,12 @@ def scenario_def(name):
         d.update(tasks=[["app:a1", "app:a2"], ["app:b1"], ["app:c1"]], death=True)
     elif name == "S8b":
         d.update(role="initiator", setup=2, inbound=[("tr", "T1")], tasks=[["app:x1"], ["test_req", "app:y1"]], death=True)
+    elif name == "S9":
+        # back-pressure ends while a sender is parked in drain(): from then on drain() calls of other senders return at once (the
+        # transport is no longer paused) although the parked one has not been woken yet
+        d.update(tasks=[["app:a1", "app:a2"], ["app:b1"], ["test_req"]], resume=True)
+    elif name == "S9b":
+        d.update(inbound=[("tr", "T1"), ("app",)], tasks=[["app:x1"], ["app:y1"]], resume=True)
     elif name == "S6":
         d.update(inbound=[("badhb",)], tasks=[["test_req", "app:x1"], ["app:y1"]])
     return d
@@ -93,8 +99,10 @@ async def run_schedule(name, clock, choices, rnd=None, max_decisions=80):
 
     dead = {"on": False, "eof": False, "lost": []}
 
+    parking = {"on": True}
+
     async def drain_hook():
-        if gated["on"]:
+        if gated["on"] and parking["on"]:
             await sched.wait("drain")
         if dead["on"]:
             raise ConnectionResetError("Connection lost")
@@ -219,6 +227,8 @@ async def run_schedule(name, clock, choices, rnd=None, max_decisions=80):
                 opts.append(("die", None))
             if dead["on"] and not dead["eof"]:
                 opts.append(("eof", None))
+            if d["resume"] and parking["on"] and any(g.label == "drain" for g in sched.gates):
+                opts.append(("resume-transport", None))
             if ticks > 0 and d["hb"]:
                 opts.append(("tick", None))
             if not opts:
@@ -248,6 +258,8 @@ async def run_schedule(name, clock, choices, rnd=None, max_decisions=80):
                 tasks.append(asyncio.get_running_loop().create_task(run_task(arg, d["tasks"][arg])))
             elif kind == "feed":
                 ep.vf_reader.feed(build_inbound(inbound.pop(0)))
+            elif kind == "resume-transport":
+                parking["on"] = False
             elif kind == "die":
                 dead["on"] = True
             elif kind == "eof":
